@@ -21,6 +21,8 @@ const pkgPath = "github.com/tencent/goom/zzverif/c08/vars"
 func f1() int { return 1 }
 func f2() int { return 2 }
 
+var fnInIface = func() string { return "called" }
+
 var ch1, ch2 = make(chan int), make(chan int, 3)
 var e1, e2 = errors.New("e1"), errors.New("e2")
 var sp1, sp2 = &vars.S{A: 11}, &vars.S{A: 12}
@@ -58,7 +60,7 @@ func values(typ string) []interface{} {
 		return []interface{}{ch1, ch2}
 	case "interface{}":
 		// among them typed nils: an interface holding one is not nil
-		return []interface{}{5, "s", vars.S{A: 1}, sp1, string([]byte("boxed")) /* equal string, other backing array */, (*vars.S)(nil), []int(nil), map[string]int(nil)}
+		return []interface{}{5, "s", vars.S{A: 1}, sp1, string([]byte("boxed")) /* equal string, other backing array */, (*vars.S)(nil), []int(nil), map[string]int(nil), fnInIface /* a func is a value like any other for an interface{} variable */}
 	case "error":
 		return []interface{}{e1, e2, (*ptrErr)(nil)}
 	case "[40]byte":
@@ -93,6 +95,9 @@ func same(t reflect.Type, addr unsafe.Pointer, want interface{}) (bool, string) 
 		}
 		if cur.Elem().Type() != reflect.TypeOf(want) {
 			return false, fmt.Sprintf("dynamic type %s", cur.Elem().Type())
+		}
+		if cur.Elem().Kind() == reflect.Func {
+			return cur.Elem().Pointer() == reflect.ValueOf(want).Pointer(), "identity of the boxed func"
 		}
 		w := reflect.New(t).Elem()
 		w.Set(reflect.ValueOf(want))
@@ -230,7 +235,7 @@ func TestC08(t *testing.T) {
 					if ok, how := same(typ, addr, v); !ok {
 						fail("C08/set-not-observed", fmt.Sprintf("variable does not hold the mocked value %s (%s)", show(v), how))
 					}
-					if got := read(); !reflect.DeepEqual(got, v) && !(isFuncOrChan(typ) || v == nil) {
+					if got := read(); !reflect.DeepEqual(got, v) && !(isFuncOrChan(typ) || v == nil || reflect.TypeOf(v).Kind() == reflect.Func) {
 						fail("C08/reader-sees-other-value", fmt.Sprintf("reader in the defining package sees %v, want %v", got, v))
 					}
 					if rng.Chance(1, 3) { // asking again continues with the same mocker
